@@ -258,7 +258,8 @@ func (h *H) UnmarshalBinary(d []byte) error {
 	h.Salt = binary.BigEndian.Uint64(g[16:24])
 	h.Shape = Shape(g[24])
 	h.BadValidate = g[25] == 1
-	h.hash = nil
+	// (the lazily computed hash is NOT cleared, the way decoders of real header types leave
+	// private caches alone: decoding into anything but a fresh header shows)
 	return nil
 }
 
